@@ -682,7 +682,10 @@ def replay_known(k):
         return True, "no witness script"
     try:
         env = {}
-        exec(compile(w, f"<witness {k['id']}>", "exec"), env)
+        import contextlib
+        import io
+        with contextlib.redirect_stdout(io.StringIO()):      # a witness script may print; the check's stdout is its interface
+            exec(compile(w, f"<witness {k['id']}>", "exec"), env)
         ok = bool(env.get("REPRODUCED"))
         return ok, env.get("DETAIL", "")
     except Exception as e:  # noqa
